@@ -204,3 +204,47 @@ Proof.
     split; [vm_compute; right; left; reflexivity|].
     split; reflexivity.
 Qed.
+
+(* ---------------- the catalog-level driver calls (Model/DriverExt.v) ----------------
+   Histories may also contain CreateCollection, ListCollections,
+   ListDatabases and CreateMany (xcall / xstep / xrun): the invariant, and
+   with it every consequence above, holds after every such history. *)
+From Lungo.Model Require Import DriverExt.
+From Lungo.Proofs Require Import DriverExtProofs.
+
+Theorem C15_ext_step_invariant :
+  forall matchf applyf extractf projectf now ds x,
+    ds_inv matchf ds -> ds_inv matchf (fst (xstep matchf applyf extractf projectf now ds x)).
+Proof. exact xstep_inv. Qed.
+Print Assumptions C15_ext_step_invariant.
+
+Theorem C15_ext_history_invariant :
+  forall matchf applyf extractf projectf now xs,
+    ds_inv matchf (fst (xrun matchf applyf extractf projectf now d_init xs)).
+Proof. exact xrun_inv. Qed.
+Print Assumptions C15_ext_history_invariant.
+
+Theorem C15_ext_reachable_catalog_invariant :
+  forall matchf applyf extractf projectf now xs c,
+    visible_cat (fst (xrun matchf applyf extractf projectf now d_init xs)) c ->
+    CatInv.cat_inv matchf c (g_did (ds_gen (fst (xrun matchf applyf extractf projectf now d_init xs)))).
+Proof. exact xreachable_cat_inv. Qed.
+Print Assumptions C15_ext_reachable_catalog_invariant.
+
+(* a history of Driver calls is a history of extended calls *)
+Theorem C15_ext_histories_contain_driver_histories :
+  forall matchf applyf extractf projectf now cs ds,
+    xrun matchf applyf extractf projectf now ds (lift_calls cs) =
+    (fst (run matchf applyf extractf projectf now ds cs),
+     map XR (snd (run matchf applyf extractf projectf now ds cs))).
+Proof. exact xrun_lift. Qed.
+Print Assumptions C15_ext_histories_contain_driver_histories.
+
+(* CreateMany is its CreateOne calls, in order, as far as they succeed *)
+Theorem C15_create_many_is_prefix_of_create_ones :
+  forall matchf applyf extractf projectf now specs ds sid h acc,
+    exists k, (k <= List.length specs)%nat /\
+      fst (create_many matchf applyf extractf projectf now ds sid h specs acc) =
+      fst (run matchf applyf extractf projectf now ds (map (create_index_call sid h) (firstn k specs))).
+Proof. exact create_many_is_prefix_run. Qed.
+Print Assumptions C15_create_many_is_prefix_of_create_ones.
